@@ -30,8 +30,10 @@ Arguments Absent {A}.
 Arguments Writing {A} _ _.
 Arguments Complete {A} _.
 
-Inductive loc := Home | InDir.
-Definition loc_eqb (a b : loc) : bool := match a, b with Home, Home | InDir, InDir => true | _, _ => false end.
+(* Home = the directory the process was in before the call, InDir = the job directory, Elsewhere = any other *)
+Inductive loc := Home | InDir | Elsewhere.
+Definition loc_eqb (a b : loc) : bool :=
+  match a, b with Home, Home | InDir, InDir | Elsewhere, Elsewhere => true | _, _ => false end.
 
 (* position inside result.save: lock taken, before/opened/dumped/after of the result dump and of the job dump, lock released *)
 Inductive svpc := SAcq | SRB | SRO | SRD | SRA | SJB | SJO | SJD | SJA | SRel.
@@ -125,6 +127,7 @@ Inductive action :=
 | AExc                       (* an exception is raised at the checkpoint just passed *)
 | APreHookRaise              (* hooks.pre_run_task raises *)
 | APostHookRaise             (* hooks.post_run_task raises *)
+| AChdir                     (* the task body / the post_run_task hook calls os.chdir to some other directory *)
 | AProgress (n : nat)        (* the file being written now holds n bytes *)
 | ACrash.                    (* the process dies (os._exit / SIGKILL) *)
 
@@ -364,6 +367,8 @@ Section Proto.
     | RelHit, AReturned | Post2, AReturned =>
         Some (set_ret (Some (match job_result q g with Some r => Returned r | None => NoResult end)) (set_pc Done q), g)
     | RelExc, ARaisedOut => Some (set_ret (Some Raised) (set_pc Done q), g)
+    (* ---- environment: user code moves the process: inside the body, inside hooks.post_run_task *)
+    | BodyIn, AChdir | Fin1, AChdir => Some (set_cwd Elsewhere q, g)
     (* ---- environment: bytes reach the disk while a file is open *)
     | Sv true SRO, AProgress n | Sv true SRD, AProgress n =>
         if grows (resf g) n then Some (q, set_resf (Writing (the_result q) n) g) else None
